@@ -213,3 +213,22 @@ def r2e_canonical_read_keys(ctx):
     r.floor("lookups in per-file index maps", n, 6)
     r.floor("canonicalizing functions", len(canon), 2)
     return r
+
+
+def r2f_no_whole_value_insert(ctx):
+    r = Result("R2f", "a per-file index map that receives entry()-appends during analysis is never overwritten by a whole-value "
+                      "`insert`: the insert discards what an earlier analysis of the same file appended (e.g. a document opened "
+                      "before the scan reaches it) while the records it indexes stay behind")
+    db = _db(ctx)
+    appended = {op.ident.split(".")[-1] for op in db.append_ops()}
+    n = 0
+    for m in sorted(appended & set(db.per_file_index())):
+        for op in db.writes(m):
+            n += 1
+            key = "R2f|%s|%s.%s" % (op.fn.id, m, op.method)
+            if op.method == "insert":
+                r.violate(key, "`%s.insert()` in %s at %s overwrites an appended per-file entry" % (m, op.fn.id, ctx.bin.span_str(op.call["span"])))
+            else:
+                r.ok(sample={"write": key})
+    r.floor("writes to appended per-file maps", n, 4)
+    return r
